@@ -90,6 +90,27 @@ func batchCmd(args []string) {
 			panic(err)
 		}
 		c, m = in.Case, in.Meta
+		// a fixed case can still be run under the profiles (sort on / off, separate package)
+		var opt gen.Options
+		if err := json.Unmarshal([]byte(*profile), &opt); err != nil {
+			panic(err)
+		}
+		if c.Yaml != nil {
+			switch opt.Sort {
+			case 1:
+				c.Yaml.Sort = true
+			case 2:
+				c.Yaml.Sort = false
+			}
+			if opt.SeparatePackage == "auto" {
+				rel, _ := filepath.Rel(pipe.HarnessRoot, *work)
+				c.Yaml.DefaultPackageName = "verifharness/" + filepath.ToSlash(rel) + "/spkg"
+				c.Yaml.TargetPackageName = "tgt"
+			}
+		}
+		if m.OneofGroups == nil {
+			m.OneofGroups = gen.OneofGroups(c, m.Roots)
+		}
 	} else {
 		opt := gen.DefaultOptions()
 		if err := json.Unmarshal([]byte(*profile), &opt); err != nil {
